@@ -1,1 +1,227 @@
-import Abmarl.Spec.Managers
+import Abmarl.Lemmas.ManagersInv
+import Abmarl.Model.StubSim
+/-!
+# C01 — Simulation managers honour the done protocol on every step
+
+Property theorems only (helper lemmas live in `Lemmas/`).  The model is
+`Model/Managers.lean` (the three managers over an arbitrary `SimIface`), the decidable
+trace specification is `specC01` in `Spec/Managers.lean`.
+
+* `C01_managers_honour_done_protocol` — for **every** simulation `S` (any state type, any
+  action/observation/info types) satisfying the frame conditions `WF`, every manager kind,
+  every initial manager state and **every** history of resets and steps, the trace of the
+  model satisfies `specC01`.
+* the `c01_*` theorems read `specC01` back as the clauses of the property, so that the
+  Bool-valued predicate the driver evaluates on implementation traces is seen to say what
+  the property says.
+-/
+namespace Abmarl
+variable {σ α ω ι : Type}
+
+/-- **C01** for every simulation, manager kind and history. -/
+theorem C01_managers_honour_done_protocol [DecidableEq α] (S : SimIface σ α ω ι) (k : MKind)
+    (hW : WF S k) (m0 : MState σ) (ops : List (Op α)) :
+    specC01 k S.n S.learning m0.shuffle (runOps S k m0 ops) = true :=
+  (runOps_sound hW ops m0 {} (by intro h; simp at h)).1
+
+/-! ## What `specC01` says (readings of the decidable predicate) -/
+
+/-- ghost state before entry `i` of a trace -/
+def ghostAt (g0 : GSt) (tr : List (Entry α ω ι)) (i : Nat) : GSt := (tr.take i).foldl gNext g0
+
+/-- the caller protocol holds up to and including entry `i`: no step before the first
+successful reset or after an output with `__all__ = true` -/
+def ProtocolOK (g0 : GSt) (tr : List (Entry α ω ι)) (i : Nat) : Prop :=
+  ∀ j ≤ i, ∀ e, tr[j]? = some e → ∀ acts, e.op = .step acts →
+    (ghostAt g0 tr j).started = true ∧ (ghostAt g0 tr j).over = false
+
+/-- `specLoop` means: the per-entry check holds at every entry reached under the protocol. -/
+theorem specLoop_at (chk : GSt → Entry α ω ι → Bool) :
+    ∀ (tr : List (Entry α ω ι)) (g0 : GSt), specLoop chk g0 tr = true →
+      ∀ i e, tr[i]? = some e → ProtocolOK g0 tr i → chk (ghostAt g0 tr i) e = true := by
+  intro tr
+  induction tr with
+  | nil => intro g0 _ i e h; simp at h
+  | cons e0 es ih =>
+    intro g0 hspec i e hi hp
+    have hboth : chk g0 e0 = true ∧ specLoop chk (gNext g0 e0) es = true := by
+      unfold specLoop at hspec
+      cases hop : e0.op with
+      | reset => rw [hop] at hspec; simpa using hspec
+      | step acts =>
+        rw [hop] at hspec
+        have := hp 0 (Nat.zero_le _) e0 (by simp) acts hop
+        simp only [ghostAt, List.take_zero, List.foldl_nil] at this
+        simpa [this.1, this.2] using hspec
+    cases i with
+    | zero =>
+      simp only [List.getElem?_cons_zero, Option.some.injEq] at hi
+      subst hi
+      simpa [ghostAt] using hboth.1
+    | succ i =>
+      simp only [List.getElem?_cons_succ] at hi
+      have hp' : ProtocolOK (gNext g0 e0) es i := by
+        intro j hj e' he' acts hop'
+        have := hp (j + 1) (by omega) e' (by simpa using he') acts hop'
+        simpa [ghostAt] using this
+      have := ih (gNext g0 e0) hboth.2 i e hi hp'
+      simpa [ghostAt] using this
+
+section readings
+variable [DecidableEq α] {k : MKind} {n : Nat} {learning : Aid → Bool} {sh : Bool} {g : GSt}
+  {acts : List (Aid × α)} {e : Entry α ω ι} {o : Out ω ι}
+
+/-- observation, reward, done and info entries are returned for exactly the same agents,
+each agent once -/
+theorem c01_keys_agree (h : c01Step k n learning sh g acts e = true) (ho : e.res = .stepOk o) :
+    keys o.rewards = keys o.obs ∧ keys o.dones = keys o.obs ∧ keys o.infos = keys o.obs ∧
+      (keys o.obs).Nodup := by
+  simp only [c01Step, ho, Bool.and_eq_true, beq_iff_eq, decide_eq_true_eq] at h
+  exact ⟨h.1.1.1.1.1.1.1.2, h.1.1.1.1.1.1.2, h.1.1.1.1.1.2, h.1.1.1.1.2⟩
+
+/-- an agent already reported done in this episode is never included again
+(so each agent is reported done at most once) -/
+theorem c01_never_reports_done_agent (h : c01Step k n learning sh g acts e = true)
+    (ho : e.res = .stepOk o) : ∀ a ∈ keys o.obs, a ∉ g.R := by
+  simp only [c01Step, ho, Bool.and_eq_true, List.all_eq_true, decide_eq_true_eq] at h
+  exact h.1.1.1.2
+
+/-- an action for an already-done agent is rejected, and the simulation was not advanced -/
+theorem c01_rejects_before_step (h : c01Step k n learning sh g acts e = true)
+    (hb : ∃ p ∈ acts, p.1 ∈ g.R) :
+    e.res = .err .rejected ∧ e.simArgs = none ∧ e.accrued = g.pend ∧ e.ghost.pending = g.pend := by
+  have hb' : (acts.any fun p => decide (p.1 ∈ g.R)) = true := by
+    obtain ⟨p, hp, hpr⟩ := hb
+    exact List.any_eq_true.mpr ⟨p, hp, by simpa using hpr⟩
+  unfold c01Step at h
+  cases hr : e.res with
+  | resetOk _ => simp [hr] at h
+  | stepOk o => simp [hr, hb'] at h
+  | err er =>
+    simp only [hr, Bool.and_eq_true, decide_eq_true_eq, Option.isNone_iff_eq_none, beq_iff_eq] at h
+    exact ⟨by rw [h.1.1.1.1], h.1.1.2, h.1.2, h.2⟩
+
+/-- any rejection at all happens before the simulation is advanced and only for a blocked action -/
+theorem c01_error_is_clean_rejection (h : c01Step k n learning sh g acts e = true) {er : Err}
+    (hr : e.res = .err er) : er = .rejected ∧ e.simArgs = none ∧ e.ghost.pending = g.pend ∧
+      ∃ p ∈ acts, p.1 ∈ g.R ∨ (k ≠ .dynamic ∧ learning p.1 = false) := by
+  simp only [c01Step, hr, Bool.and_eq_true, decide_eq_true_eq, Option.isNone_iff_eq_none, beq_iff_eq,
+    List.any_eq_true, Bool.or_eq_true, bne_iff_ne, ne_eq, Bool.not_eq_true'] at h
+  obtain ⟨⟨⟨⟨h1, p, hp, hpp⟩, h3⟩, _⟩, h5⟩ := h
+  exact ⟨h1, h3, h5, p, hp, hpp⟩
+
+/-- accepted actions reach the simulation unchanged (as a permutation when the all-step manager
+was asked to randomise the input order) -/
+theorem c01_actions_reach_sim (h : c01Step k n learning sh g acts e = true) (ho : e.res = .stepOk o) :
+    ∃ args, e.simArgs = some args ∧ (if sh then permOf args acts = true else args = acts) := by
+  simp only [c01Step, ho, Bool.and_eq_true] at h
+  have h6 := h.1.1.2
+  cases hs : e.simArgs with
+  | none => simp [hs] at h6
+  | some args =>
+    refine ⟨args, rfl, ?_⟩
+    cases sh <;> simpa [hs] using h6
+
+/-- `__all__` is true exactly when the simulation declares itself finished or every
+participating agent has been reported done -/
+theorem c01_allDone_iff (h : c01Step k n learning sh g acts e = true) (ho : e.res = .stepOk o) :
+    o.allDone = true ↔
+      (e.ghost.simAllDone = true ∨ ∀ a ∈ participating k n learning, a ∈ g.R ++ newlyDone o.dones) := by
+  simp only [c01Step, ho, Bool.and_eq_true, beq_iff_eq] at h
+  rw [h.1.2]
+  simp [List.all_eq_true]
+
+/-- every reward pending for a reported agent after the simulation step is delivered in this
+output and its accumulator is empty afterwards; an unreported agent's pending reward is kept -/
+theorem c01_ledger (h : c01Step k n learning sh g acts e = true) (ho : e.res = .stepOk o) :
+    ∀ a < n, (∀ r, o.rewards.lookup a = some r → r = e.accrued.getD a 0 ∧ e.ghost.pending.getD a 0 = 0) ∧
+             (o.rewards.lookup a = none → e.ghost.pending.getD a 0 = e.accrued.getD a 0) := by
+  simp only [c01Step, ho, Bool.and_eq_true] at h
+  have hl := h.2
+  unfold ledgerOk at hl
+  rw [List.all_eq_true] at hl
+  intro a ha
+  have := hl a (by simpa using ha)
+  cases hlk : o.rewards.lookup a with
+  | none => simpa [hlk] using this
+  | some r =>
+    simp only [hlk, Bool.and_eq_true, beq_iff_eq] at this
+    exact ⟨fun r' hr' => by cases hr'; exact this, by simp⟩
+
+end readings
+
+/-! ## The stub family used by the correspondence check satisfies the hypotheses -/
+
+/-- scripts the harness generates for the dynamic-order manager -/
+def ScriptWF (sc : Script) : Prop :=
+  0 < sc.n ∧ ∀ l ∈ sc.noms, l.Nodup ∧ ∀ a ∈ l, a < sc.n
+
+theorem stub_lawful (sc : Script) : Lawful (stubSim sc) where
+  obs_done := by intros; rfl
+  obs_allDone := by intros; rfl
+  obs_next := by intros; rfl
+  obs_pending := by intros; rfl
+  rew_done := by intros; rfl
+  rew_allDone := by intros; rfl
+  rew_next := by intros; rfl
+  rew_val := by intros; rfl
+  rew_pending := by
+    intro s a b
+    simp only [stubSim]
+    by_cases h : b = a
+    · subst h
+      by_cases hb : b < s.pend.length
+      · simp [List.getD, hb]
+      · simp [List.getD, hb]
+    · have : a ≠ b := fun e => h e.symm
+      simp [List.getD, List.getElem?_set_ne this, h]
+
+theorem stub_WF (sc : Script) (k : MKind) (hl : k = .turnBased → ∃ a < sc.n, sc.learning.getD a false = true)
+    (hd : k = .dynamic → ScriptWF sc) : WF (stubSim sc) k where
+  lawful := stub_lawful sc
+  turn := by
+    intro hk
+    obtain ⟨a, ha, hla⟩ := hl hk
+    intro he
+    have : a ∈ (stubSim sc).learners := (mem_learners _ a).mpr ⟨ha, hla⟩
+    rw [he] at this; cases this
+  dyn := by
+    intro hk
+    obtain ⟨h0, hn⟩ := hd hk
+    refine ⟨h0, fun s => ?_⟩
+    show ((sc.noms[s.t]?).getD (List.range sc.n)).Nodup ∧ ∀ a ∈ (sc.noms[s.t]?).getD (List.range sc.n), a < sc.n
+    cases hg : sc.noms[s.t]? with
+    | none => simp [List.nodup_range]
+    | some l =>
+      have := hn l (List.mem_of_getElem? hg)
+      simpa using this
+
+/-- the judge is sound on the scripted family: the model's own trace always passes -/
+theorem C01_stub (sc : Script) (k : MKind) (m0 : MState StubSt) (ops : List (Op Int))
+    (hl : k = .turnBased → ∃ a < sc.n, sc.learning.getD a false = true)
+    (hd : k = .dynamic → ScriptWF sc) :
+    specC01 k sc.n (stubSim sc).learning m0.shuffle (runOps (stubSim sc) k m0 ops) = true :=
+  C01_managers_honour_done_protocol (stubSim sc) k (stub_WF sc k hl hd) m0 ops
+
+/-! ## Non-vacuity: a concrete history with a finish "before its turn", a simultaneous double
+finish, a non-learning entity and a rejected action meets every hypothesis and exercises
+every clause. -/
+
+def exScript : Script :=
+  { n := 4, learning := [true, true, false, true], doneAt := [2, 2, 9, 0], finishAt := 9, noms := [] }
+
+def exOps : List (Op Int) :=
+  [.reset, .step [(0, 1)], .step [(1, 2)], .step [(0, 3)], .step [(1, 1)], .reset, .step [(0, 0)]]
+
+example : WF (stubSim exScript) .turnBased :=
+  stub_WF exScript .turnBased (fun _ => ⟨0, by decide, by decide⟩) (by intro h; cases h)
+
+/-- the example history really contains a rejection, a done report and a second episode -/
+example :
+    let tr := runOps (stubSim exScript) .turnBased (mgrInit {} false []) exOps
+    (tr.any fun e => match e.res with | .err .rejected => true | _ => false) = true ∧
+    (tr.any fun e => match e.res with | .stepOk o => o.dones.any (·.2) | _ => false) = true ∧
+    specC01 .turnBased 4 (stubSim exScript).learning false tr = true := by
+  decide
+
+end Abmarl
